@@ -58,3 +58,14 @@ package config
 //@ -- sources are visited from the highest priority down (strictly descending), starting at the internal override
 //@ layout sourcesDescending: descending(SourcesInDescendingOrder) && first(SourcesInDescendingOrder) == InternalOverride && last(SourcesInDescendingOrder) == DatastoreGlobal && len(SourcesInDescendingOrder) == 6
 //@   property C27
+
+//@ -- C27: a configuration message from the calculation graph REPLACES what the Config held per source: the
+//@ -- per-source tables handed to resolve() are built from scratch in this call (a key that a source no longer
+//@ -- sets cannot linger and keep deciding the result).
+//@ func (*Config).UpdateFromConfigUpdate
+//@   property C27
+//@   option safety off
+//@   option stable (*Config).sourceToRawConfig, map[Source]map[string]string
+//@   requires config != nil
+//@   ghost at call maps.Copy: check fresh(arg0)
+//@   ghost at call resolve: check fresh(old(config.sourceToRawConfig))
